@@ -7,6 +7,7 @@ mod ops_types;
 mod ops_sink;
 mod ops_seq;
 mod ops_io;
+mod ops_token;
 
 #[global_allocator]
 static GLOBAL: ops_seq::Counting = ops_seq::Counting;
@@ -31,6 +32,9 @@ fn handler(op: &str) -> Option<Handler> {
         "SEQ" => Some(ops_seq::seq_handler),
         "SZ" => Some(ops_seq::sz_handler),
         "DROPS" => Some(ops_seq::drops_handler),
+        "TK" => Some(ops_token::tk_handler),
+        "TKE" => Some(ops_token::tke_handler),
+        "DP" => Some(ops_token::dp_handler),
         "IOR" => Some(ops_io::ior_handler),
         "IOW" => Some(ops_io::iow_handler),
         "AIOR" => Some(ops_io::aior_handler),
